@@ -2,6 +2,7 @@ package c18
 
 import (
 	"context"
+	"errors"
 	"fmt"
 	"time"
 
@@ -39,6 +40,7 @@ type hcall struct {
 	panicked bool
 	escaped  any
 	events   []event
+	wantErr  error // set when exactly one step fails, with this error, and no panic is involved
 }
 
 func (c *hcall) judge() (fs []finding) {
@@ -60,6 +62,9 @@ func (c *hcall) judge() (fs []finding) {
 	}
 	if c.steps > 0 && c.res == nil && !commitOK {
 		add("nil-without-commit", "%s: the result is nil although the server accepted no commit during the call", c.name)
+	}
+	if c.wantErr != nil && (c.res == nil || !(errors.Is(c.res, c.wantErr) || mentions(c.res, c.wantErr.Error()))) {
+		add("wrong-error", "%s: the only failing step returned %q but the result is %v", c.name, c.wantErr, c.res)
 	}
 	if !beginOK && c.ran > 0 {
 		add("step-without-begin", "%s: the server accepted no begin during the call but %d step(s) ran", c.name, c.ran)
@@ -139,7 +144,7 @@ func handlesCase(k *engine.Case) {
 			return fns
 		}
 		var calls []*hcall
-		scenario := []string{"nested", "nested", "begun-handle", "ctx-cancel", "ctx-cancel", "ctx-dead", "self-rollback", "self-commit"}[r.Intn(8)]
+		scenario := []string{"nested", "nested", "begun-handle", "ctx-cancel", "ctx-cancel", "ctx-dead", "self-rollback", "self-commit", "ctx-cancel-fail", "ctx-cancel-fail"}[r.Intn(10)]
 		desc := scenario
 		switch scenario {
 		case "nested":
@@ -208,6 +213,34 @@ func handlesCase(k *engine.Case) {
 				k.Count("handles.ctx_rollback_seen_before_commit", 1)
 			}
 			desc = fmt.Sprintf("ctx-cancel (step waits for the server-side rollback=%v, seen=%v)", wait, waited)
+		case "ctx-cancel-fail":
+			// the failing step is also the one that gives up the request context (a handler that
+			// cancels and reports why): the caller is told the step's error, not the context's
+			ctx, cancel := context.WithCancel(context.Background())
+			wait := r.Intn(2) == 0
+			steps := someSteps(0)
+			stepErr := fmt.Errorf("c18-handles-step%d-gave-up", leafNo)
+			steps = append(steps, func(txn *gorm.DB) error {
+				ran++
+				ev, _, _ := srv.snapshot()
+				cancel()
+				if wait {
+					waitRollback(srv, len(ev))
+				}
+				return stepErr
+			})
+			if r.Intn(2) == 0 {
+				steps = append(steps, okStep())
+			}
+			c := observe(srv, "Transact(db.WithContext(ctx), ..., step that cancels ctx and returns its own error)", len(steps), &ran, func() error {
+				return gormx.Transact(e.db.WithContext(ctx), steps...)
+			})
+			if !pl.beginFail {
+				c.wantErr = stepErr
+			}
+			calls = append(calls, c)
+			cancel()
+			desc = fmt.Sprintf("ctx-cancel-fail (step waits for the server-side rollback=%v)", wait)
 		case "ctx-dead":
 			ctx, cancel := context.WithCancel(context.Background())
 			cancel()
